@@ -98,6 +98,13 @@ func (sw *streamWrapper) handleResponses() {
 			slog.Any("err", err),
 		)
 
+		if len(sw.pendingRequests) == 0 {
+			// The stream has ended in the meantime and handleStreamClosed has already failed
+			// every pending request, including the one this response was for
+			sw.Unlock()
+			continue
+		}
+
 		var f concurrent.Future[*proto.WriteResponse]
 		f, sw.pendingRequests = sw.pendingRequests[0], sw.pendingRequests[1:]
 		sw.Unlock()
